@@ -555,3 +555,77 @@ pub fn write_evidence(spec: &PropSpec, tier: &str, batch_seed: u64, runs: u64, r
     let path = format!("{dir}/{}.json", spec.id);
     std::fs::write(&path, serde_json::to_string_pretty(&doc).unwrap()).expect("write evidence");
 }
+
+// ------------------------------------------------------------- determinism self-test
+
+/// Trace hashes of runs 0..count of a property, computed on `threads` workers.
+pub fn hashes(spec: &PropSpec, batch_seed: u64, count: u64, threads: usize) -> BTreeMap<u64, u64> {
+    let next = AtomicU64::new(0);
+    let out = Mutex::new(BTreeMap::new());
+    std::thread::scope(|sc| {
+        for _ in 0..threads.max(1) {
+            sc.spawn(|| {
+                crate::world::install_thread();
+                loop {
+                    let i = next.fetch_add(1, Ordering::Relaxed);
+                    if i >= count {
+                        break;
+                    }
+                    let seed = run_seed(batch_seed, spec.id, i);
+                    let plan = scenarios::generate(spec.id, "quick", seed, i);
+                    let h = match execute(&plan) {
+                        Ok(o) => o.trace_hash ^ o.sched_hash.rotate_left(17) ^ (o.violations.len() as u64) << 56,
+                        Err(_) => 0xE44,
+                    };
+                    out.lock().unwrap().insert(i, h);
+                }
+            });
+        }
+    });
+    out.into_inner().unwrap()
+}
+
+/// Every property's first runs executed three times - here on 16 threads, in a fresh process
+/// on 1 thread, in another fresh process on 5 threads - must produce identical event-log hashes.
+pub fn selftest(total: u64) -> i32 {
+    let specs = crate::props::SPECS;
+    let per = (total / specs.len() as u64).max(8);
+    let exe = std::env::current_exe().expect("own path");
+    let mut mismatches = 0u64;
+    let mut compared = 0u64;
+    for spec in specs {
+        // skip the enumerated payload chunks of C08 (pure sweeps) by starting where its live runs start
+        let here = hashes(spec, spec.default_seed, per, 16);
+        for threads in [1usize, 5] {
+            let out = std::process::Command::new(&exe).args(["hashes", spec.id, &per.to_string(), &threads.to_string()]).output();
+            let Ok(out) = out else {
+                println!("HARNESS-ERROR: could not start child process");
+                return 2;
+            };
+            let text = String::from_utf8_lossy(&out.stdout);
+            let mut there = BTreeMap::new();
+            for l in text.lines() {
+                let mut it = l.split(' ');
+                if let (Some(i), Some(h)) = (it.next().and_then(|x| x.parse::<u64>().ok()), it.next().and_then(|x| u64::from_str_radix(x, 16).ok())) {
+                    there.insert(i, h);
+                }
+            }
+            for (i, h) in &here {
+                compared += 1;
+                if there.get(i) != Some(h) {
+                    mismatches += 1;
+                    if mismatches <= 10 {
+                        println!("MISMATCH property={} run={i}: {:016x} here (16 threads) vs {:?} in a fresh process ({threads} threads)", spec.id, h, there.get(i).map(|x| format!("{x:016x}")));
+                    }
+                }
+            }
+        }
+        println!("{}: {} runs x 3 executions compared", spec.id, here.len());
+    }
+    println!("determinism self-test: {compared} comparisons, {mismatches} mismatches");
+    if mismatches > 0 {
+        2
+    } else {
+        0
+    }
+}
